@@ -867,7 +867,14 @@ AuthLists == {<<>>, <<>>, <<>>} \cup
     {<<Auth(171, c, 1), Auth(171, 0, 2)>> : c \in Contracts} \cup
     {<<Auth(c, d, 1)>> : c \in Contracts, d \in Contracts}
 TxInit == {Ret1, P(2) \o P(1) \o <<85>> \o Ret1, <<254>>, <<96, 64, 96, 0, 243>>}
-AccessLists == {<<>>} \cup (IF Has(BERLIN) THEN {<<[addr |-> c, keys |-> <<0>>]>> : c \in Contracts} ELSE {})
+\* (EIP-2930 allows an address to be listed more than once; every listed key counts, whichever entry lists it)
+AccessLists == {<<>>} \cup (IF Has(BERLIN)
+                            THEN LET c1 == CHOOSE c \in Contracts : \A d \in Contracts : c <= d
+                                     c2 == CHOOSE c \in Contracts : \A d \in Contracts : c >= d IN
+                                 {<<[addr |-> c, keys |-> <<0>>]>> : c \in Contracts}
+                                 \cup {<<[addr |-> c1, keys |-> <<0>>], [addr |-> c1, keys |-> <<1>>]>>,
+                                        <<[addr |-> c2, keys |-> <<>>], [addr |-> c1, keys |-> <<1>>], [addr |-> c2, keys |-> <<0, 1>>]>>}
+                            ELSE {})
 ChooseTx == m.ph = "tx" /\ Len(m.res) < MaxTx /\
     \E to \in TxTargets, value \in (IF TxVariety THEN {0, 1} ELSE TxValues), gas \in TxGas, price \in GasPrices,
        al \in (IF TxVariety THEN AccessLists ELSE {<<>>}), prio \in (IF TxVariety /\ Has(LONDON) THEN {-1, 0, 2} ELSE {-1}),
